@@ -209,6 +209,16 @@ pub fn c07_case(fam: &str, idx: usize, seed: u64) -> Option<Case> {
             sc.latency_ms = *rng.pick(&[0u64, 1, 5]);
             sc.tx_ms = 1;
             let desc = format!("{} size={} scripted receiver: ack_eof={} NAKs {:?} {:?} latency={}ms", k.describe(), size, ack_eof, names, injects.iter().map(|i| format!("{:?}@{}", i.requests, i.after_arrival.map(|a| format!("arrival#{}", a)).unwrap_or_else(|| format!("eof+{}ms", i.after_eof_ms)))).collect::<Vec<_>>(), sc.latency_ms);
+            // the sending user suspends and resumes in the middle of the first pass (the position in the
+            // source file must survive the suspension)
+            let mut desc = desc;
+            if rng.chance(1, 4) && n0 > 2 {
+                let at = 1 + rng.usize(n0 - 2);
+                let pause = *rng.pick(&[3u64, 40, 700, 1500]);
+                sc.scripts.push(Script { trig: Trigger::AfterEmit(0, at), delay_ms: 0, act: Act::Prim(0, PrimKind::Suspend, 0) });
+                sc.scripts.push(Script { trig: Trigger::AfterEmit(0, at), delay_ms: pause, act: Act::Prim(0, PrimKind::Resume, 0) });
+                desc.push_str(&format!(" suspend after emission #{} for {} ms", at, pause));
+            }
             sc.peers.push((1, Box::new(ScriptedReceiver::new(1, injects, ack_eof, 4000))));
             sc.observe_ms = 200_000;
             Some(Case::from(sc, &k, desc, false))
@@ -235,6 +245,9 @@ pub fn judge_c07(info: &Info, log: &RunLog, rep: &mut Report) {
     let w = |head: &str| witness(log, info, head);
     let scripted = info.scripted[t.dst];
     let em = d.emits(t.src, id);
+    if log.recs.iter().any(|r| matches!(&r.ev, Ev::Ind { ent, ind: cfdp_core::daemon::Indication::Resumed(_) } if *ent == t.src)) {
+        rep.count("c07_runs_with_suspend_resume_at_sender");
+    }
     let want_sum = if k.checksum == ChecksumType::Modular { ref_checksum(&t.content) } else { 0 };
     let src_id = VariableID::from(if t.src == 0 { 1u16 } else { 2u16 });
     let dst_id = VariableID::from(if t.dst == 0 { 1u16 } else { 2u16 });
@@ -439,7 +452,7 @@ pub fn run_c07(tier: &str, seed: u64, replay: Option<&str>) -> (Meta, Report) {
         rule: "scripted = one real sending daemon against a scripted receiver: random sizes around segment boundaries (1..12 segments of 16/32/64/100 bytes), 1-3 NAK injections per run of shapes {overlapping, unsorted, empty list, duplicates, start>end, (x,x), reaching beyond EOF, entirely beyond EOF, longer than a segment, whole file, (0,0), random mixture}, each fired after a chosen arrival index of the first pass (so that it reaches the sender while the pass is running) or after the EOF; every third case walks the shape list systematically. two-daemon = the C01 random family and the C02 single-fault family (real receiver, immediate-mode NAKs during the first pass) judged by the same byte-level oracle. distinct_nontrivial = distinct (config, size, event-order) signatures among runs with at least one file-data PDU checked.".into(),
         exhaustive: false,
         assumptions: vec!["NAK ranges reach at most a few segments beyond the end of the file (an unbounded range makes the sender enumerate 2^32/segment entries; recorded as an observation, not judged here)".into(), "zero-length file-data PDUs carry nothing and are only counted".into(), "first-pass tiles are recognised by position: a PDU equal to the next tile advances the cursor, every other data PDU must be covered by requests delivered earlier".into()],
-        require: vec![("c07_retransmissions_checked".into(), 500), ("c07_naks_with_obligation".into(), 300), ("c07_eof_checked".into(), 500), ("c07_metadata_checked".into(), 500)],
+        require: vec![("c07_retransmissions_checked".into(), 500), ("c07_naks_with_obligation".into(), 300), ("c07_eof_checked".into(), 500), ("c07_metadata_checked".into(), 500), ("c07_runs_with_suspend_resume_at_sender".into(), 100)],
         extra: vec![],
     };
     if let Some(r) = replay {
